@@ -44,6 +44,7 @@ TEmit   == Is("emit")   /\ Emit(Ev.m)   /\ Keep /\ Adv
 TUntaken == Is("untaken") /\ Untaken(Ev.m) /\ Keep /\ Adv
 THStart == Is("hstart") /\ HStart(Ev.m) /\ Keep /\ Adv
 THSelf  == Is("hself")  /\ HSelf(Ev.m, Ev.kind) /\ Keep /\ Adv
+TPreset == Is("preset") /\ PreSettle(Ev.m, Ev.kind) /\ Keep /\ Adv
 THEnd   == Is("hend")   /\ HEnd(Ev.m, [end |-> Ev.end, outs |-> Ev.outs]) /\ Keep /\ Adv
 THLate  == /\ Is("hlate") /\ settle[Ev.m] # "none" /\ Ev.res = (settle[Ev.m] = Ev.kind)
            /\ UNCHANGED rvars /\ Adv
@@ -57,6 +58,6 @@ TQuiesce == /\ Is("quiesce")
             /\ UNCHANGED rvars /\ Adv
 TSilent == (\E m \in Msgs : Settle(m)) /\ Keep /\ UNCHANGED l
 
-TNext == TReset \/ TEmit \/ TUntaken \/ THStart \/ THSelf \/ THLate \/ THEnd \/ TPCall \/ TPRet \/ TSettled \/ TQuiesce \/ TSilent
+TNext == TReset \/ TEmit \/ TUntaken \/ THStart \/ THSelf \/ TPreset \/ THLate \/ THEnd \/ TPCall \/ TPRet \/ TSettled \/ TQuiesce \/ TSilent
 TSpec == TInit /\ [][TNext]_tvars
 =============================================================================
